@@ -65,7 +65,7 @@ MANIFEST = dict(
 # rules that keep their verdict however the code is laid out: decided by bounded evaluation of the parsed code against the
 # specification (every `eval::` instance), by term equality, reaching definitions, effect analysis or dominance over resolved calls.
 # Every other rule instance of this check is a template rule (vcheck.core.Check.ob / set_templates).
-SEMANTIC = ('R02.1b', 'R02.1c', 'R02.1e', 'R02.2a', 'R02.2b', 'R02.2c', 'R02.4', 'R02.6b', 'R02.6c', 'R02.7i',
+SEMANTIC = ('R02.1b', 'R02.1c', 'R02.1e', 'R02.1g', 'R02.2a', 'R02.2b', 'R02.2c', 'R02.4', 'R02.6b', 'R02.6c', 'R02.6f', 'R02.7i', 'R02.7k',
             'R02.1f::eval::', 'R02.1f::sem::', 'R02.3a::eval::', 'R02.3a::sem::', 'R02.3b::eval::', 'R02.3c::eval::', 'R02.3d::eval::',
             'R02.5b::eval::', 'R02.5b::sem::', 'R02.5c::eval::', 'R02.5d::eval::', 'R02.5e::eval::', 'R02.5f::eval::',
             'R02.6a::eval::', 'R02.6d::eval::', 'R02.6e::eval::',
@@ -1455,6 +1455,210 @@ def _r02_1_structural(chk, repo, F):
         seen.add(fi.qualname)
         chk.analysed_unit(fi.qualname)
         _check_slice_normaliser(chk, repo, fi)
+    # (g) what a normaliser answers is a function of all three components of the slice
+    seen = set()
+    for n, c, fi in normalisers:
+        if (fi.qualname, norm(c)) in seen:
+            continue
+        seen.add((fi.qualname, norm(c)))
+        try:
+            _r02_1g_components(chk, pa, view, n, c, fi)
+        except AnalysisError:
+            raise
+        except Exception as e:          # a defect of the dependence analysis must never become a verdict
+            chk.ob("R02.1g", fi.qualname + "::result-depends-on-every-slice-component", None, fi.where(),
+                   "dependence analysis failed: %s: %s" % (type(e).__name__, e))
+
+
+# ---------------------------------------------------------------------------
+# R02.1g: the rows a slice selects are a function of its start, its stop AND its step (two slices that differ in one component
+# select different rows of a large enough table), so whatever a slice normaliser returns has to depend on each of the three: by data
+# flow (the value is computed from the component; reaching definitions, mutations of containers included) or by control flow (a test
+# that decides whether this return is reached reads the component).  A return that is independent of a component in both senses
+# answers the same for slices that select different rows -- e.g. a short cut `if start is None and stop is None: return <all rows>`
+# that forgets the step.  Dependence is over-approximated (any mention counts), so the rule can only miss, never invent, a violation;
+# nothing is executed.  The same holds at the call: a component that is neither handed to the normaliser nor tested on the way to the
+# call is lost.
+# ---------------------------------------------------------------------------
+_SLICE_COMPS = ("start", "stop", "step")
+
+
+def _comp_mentions(e, whole):
+    """(plain names, slice components) read by expression e; `whole` = names that hold the whole slice object"""
+    names, comps = set(), set()
+
+    def walk(x):
+        if isinstance(x, ast.Attribute) and isinstance(x.value, ast.Name) and x.value.id in whole and x.attr in _SLICE_COMPS:
+            comps.add(x.attr)
+            return
+        if isinstance(x, ast.Name):
+            if not isinstance(x.ctx, ast.Load):
+                return
+            if x.id in whole:
+                comps.update(_SLICE_COMPS)
+            else:
+                names.add(x.id)
+            return
+        if isinstance(x, ast.AugAssign) and isinstance(x.target, ast.Name):
+            names.add(x.target.id)
+        for ch in ast.iter_child_nodes(x):
+            walk(ch)
+
+    if e is not None:
+        walk(e)
+    return names, comps
+
+
+class _ResultDeps(object):
+    """which slice components the value returned at a return statement of `fi` depends on (data and control dependence)"""
+
+    def __init__(self, fi, carried, whole):
+        self.fi = fi
+        self.cfg = cfg_of(fi)
+        self.view = self.cfg.view()
+        self.carried = carried          # parameter -> set of components it carries
+        self.IN, _ = self.view.reaching_defs()
+        self.whole = set(whole)
+        self.memo = {}
+        self.ctl = {}
+        self.branches = [n for n in self.view.nodes() if n.kind in ("branch", "loop")]
+        # a parameter that holds the whole slice keeps that meaning only where it is never re-bound
+        for n in self.view.nodes():
+            d, _ = self.cfg.defs_uses(n)
+            self.whole -= set(d)
+        # statements that change a container in place: x[i] = v, x.attr = v, x.append(v) ...
+        self.mut = {}
+        for n in self.view.nodes():
+            a = n.ast
+            if n.kind != "stmt" or a is None:
+                continue
+            bases = set()
+            tg = list(a.targets) if isinstance(a, ast.Assign) else [a.target] if isinstance(a, (ast.AugAssign, ast.AnnAssign)) else []
+            for t in tg:
+                for x in ast.walk(t):
+                    if isinstance(x, (ast.Subscript, ast.Attribute)):
+                        b = x
+                        while isinstance(b, (ast.Subscript, ast.Attribute)):
+                            b = b.value
+                        if isinstance(b, ast.Name):
+                            bases.add(b.id)
+            for x in ast.walk(a):
+                if isinstance(x, ast.Call) and isinstance(x.func, ast.Attribute):
+                    b = x.func.value
+                    while isinstance(b, (ast.Subscript, ast.Attribute)):
+                        b = b.value
+                    if isinstance(b, ast.Name) and b.id != "self":
+                        bases.add(b.id)
+            for b in bases:
+                self.mut.setdefault(b, []).append(n)
+
+    def supported(self):
+        return not any(n.kind in ("handler", "try", "with", "def") for n in self.view.nodes())
+
+    def _reads(self, n):
+        a = n.ast
+        if a is None:
+            return set(), set()
+        if n.kind == "branch":
+            return _comp_mentions(a.test, self.whole)
+        if n.kind == "loop":
+            return _comp_mentions(a.test if isinstance(a, ast.While) else a.iter, self.whole)
+        if n.kind == "return":
+            return _comp_mentions(a.value, self.whole)
+        return _comp_mentions(a, self.whole)
+
+    def controlling(self, n):
+        """branches that decide whether n is executed: n can be reached from the branch, and so can a way out that avoids n"""
+        if n.id not in self.ctl:
+            out = []
+            for b in self.branches:
+                if b.id != n.id and self.view.reaches(b, n) and (self.view.reaches(b, self.cfg.exit, avoiding=[n]) or
+                                                                self.view.reaches(b, self.cfg.raise_exit, avoiding=[n])):
+                    out.append(b)
+            self.ctl[n.id] = out
+        return self.ctl[n.id]
+
+    def at(self, n, busy=None):
+        """components that what node n computes (and whether it runs) depends on"""
+        if n.id in self.memo:
+            return self.memo[n.id]
+        busy = busy if busy is not None else set()
+        if n.id in busy:
+            return set()
+        busy.add(n.id)
+        names, comps = self._reads(n)
+        out = set(comps)
+        for v in names:
+            for d in self.IN.get(n.id, {}).get(v, ()):
+                if d == self.cfg.entry.id:
+                    out |= self.carried.get(v, set())
+                else:
+                    out |= self.at(self.cfg.node(d), busy)
+            for m in self.mut.get(v, ()):
+                if m.id != n.id:
+                    out |= self.at(m, busy)
+        for b in self.controlling(n):
+            out |= self.at(b, busy)
+        busy.discard(n.id)
+        if not busy:
+            self.memo[n.id] = out
+        return out
+
+
+def _r02_1g_components(chk, pa, view, n, c, fi):
+    # the name that holds the slice where the normaliser is called
+    argname = None
+    for b, lab in view.controlling_branches(n):
+        raw = []
+        if b.kind == "branch":
+            _decompose(b.ast.test, lab == "T", raw)
+        for t, tr, _ in raw:
+            if tr and isinstance(t, ast.Call) and call_name(t) == "isinstance" and len(t.args) == 2 and isinstance(t.args[0], ast.Name) \
+                    and norm(t.args[1]) == "slice":
+                argname = t.args[0].id
+    if argname is None:
+        return
+    params = [p for p in fi.params if not p.startswith("*")]
+    if params and params[0] in ("self", "cls") and isinstance(c.func, ast.Attribute):
+        params = params[1:]
+    if any(isinstance(a, ast.Starred) for a in c.args) or any(k.arg is None for k in c.keywords) or len(c.args) > len(params):
+        return
+    carried = {}
+    given = dict(list(zip(params, c.args)) + [(k.arg, k.value) for k in c.keywords])
+    for p, a in given.items():
+        names, comps = _comp_mentions(a, {argname})
+        carried[p] = comps
+    handed = set().union(*carried.values()) if carried else set()
+    guards = " ".join(t for t, _ in rules.controlling_tests(view, n))
+    for comp in _SLICE_COMPS:
+        tested = ("%s.%s" % (argname, comp)) in guards
+        if comp not in handed:
+            chk.ob("R02.1g", "%s->%s::slice-%s-handed-over" % (pa.qualname, fi.name, comp), True if tested else False, pa.where(c),
+                   "the %s of the slice reaches the normaliser `%s` (or is tested on the way to the call): two slices that differ only in "
+                   "their %s select different rows" % (comp, norm(c), comp))
+    whole = [p for p, a in given.items() if isinstance(a, ast.Name) and a.id == argname]
+    rd = _ResultDeps(fi, carried, whole)
+    if not rd.supported():
+        return
+    outs = [r for r in rules.return_nodes(rd.cfg) if rd.view.reachable(r)] + [p for p in rules.falls_off_end(rd.cfg, rd.view)]
+    if not outs:
+        return
+    for comp in _SLICE_COMPS:
+        if comp not in handed:
+            continue
+        bad = [r for r in outs if comp not in rd.at(r)]
+        if bad:
+            r = bad[0]
+            under = [t + ("" if lab == "T" else " is false") for t, lab in rules.controlling_tests(rd.view, r)]
+            what = ("`%s`" % norm(r.ast)) if r.kind == "return" else "the end of the function (returns None)"
+            chk.ob("R02.1g", "%s::result-depends-on-slice-%s" % (fi.qualname, comp), False, fi.where(r.ast),
+                   "what the slice normaliser answers depends on the %s of the slice on every path: %s%s neither computes its value from "
+                   "the %s nor is reached under a test of it, so slices that differ only in their %s (and select different rows) get the "
+                   "same answer" % (comp, what, (" under [%s]" % "; ".join(under)) if under else "", comp, comp))
+        else:
+            chk.ob("R02.1g", "%s::result-depends-on-slice-%s" % (fi.qualname, comp), True, fi.where(),
+                   "what the slice normaliser answers depends on the %s of the slice on every path (%d return site(s); data and control "
+                   "dependence followed by reaching definitions)" % (comp, len(outs)))
 
 
 def _r02_1f_semantic(chk, repo, F, count_followed):
@@ -3268,6 +3472,122 @@ def r02_6(chk, repo, S):
             "read(header=True) returns (data, copy of the header)")
     if not (a and b):
         _r02_6d_structural(chk, sr)
+    try:
+        _r02_6f_split_order(chk, repo, copies)
+    except AnalysisError:
+        raise
+    except Exception as e:              # a defect of the analysis must never become a verdict
+        chk.ob("R02.6f", "split-order", None, sr.where(), "analysis failed: %s: %s" % (type(e).__name__, e))
+
+
+# ---------------------------------------------------------------------------
+# R02.6f: a reader's split result lists the columns of the structured result in the result's own (file) order.
+#
+# split_fields(data, fields=F) returns one view per element of F, in the order of F.  The structured array a reader produces has
+# its columns in file order whatever order (and however often) the caller named them, and the property wants split=True to be
+# nothing but another way to hand out that same array.  So at every call of split_fields inside the reader modules the field
+# selector has to be absent / None (all fields, dtype order) or the result's own dtype names.  A selector that carries the order of
+# the caller's request (the fields= / columns= parameter itself, a list / tuple / array made of it, a comprehension over it, either
+# arm of a conditional expression; followed through locals by reaching definitions) makes the tuple follow the request instead:
+# columns=['x', 'id'] then gives (x, id) where the structured read, and Recfile.read(split=True), give (id, x).
+# ---------------------------------------------------------------------------
+_ORDER_KEEPING = ("list", "tuple", "array", "asarray", "asanyarray", "atleast_1d", "copy", "ravel", "flatten", "astype", "reversed")
+
+
+def _request_ordered(e, fi, cfg, IN, at, req, depth=0):
+    """the parameter of the request whose element order expression e has (evaluated at CFG node `at`), else None"""
+    if depth > 8 or e is None:
+        return None
+    if isinstance(e, ast.Name):
+        defs = IN.get(at.id, {}).get(e.id, ())
+        for d in defs:
+            if d == cfg.entry.id:
+                if e.id in req:
+                    return e.id
+                continue
+            dn = cfg.node(d)
+            a = dn.ast
+            if dn.kind == "stmt" and isinstance(a, ast.Assign) and len(a.targets) == 1 and isinstance(a.targets[0], ast.Name):
+                r = _request_ordered(a.value, fi, cfg, IN, dn, req, depth + 1)
+                if r is not None:
+                    return r
+            elif dn.kind == "stmt" and isinstance(a, ast.AnnAssign) and a.value is not None:
+                r = _request_ordered(a.value, fi, cfg, IN, dn, req, depth + 1)
+                if r is not None:
+                    return r
+        return None
+    if isinstance(e, ast.IfExp):
+        return _request_ordered(e.body, fi, cfg, IN, at, req, depth + 1) or _request_ordered(e.orelse, fi, cfg, IN, at, req, depth + 1)
+    if isinstance(e, ast.BoolOp):
+        for v in e.values:
+            r = _request_ordered(v, fi, cfg, IN, at, req, depth + 1)
+            if r is not None:
+                return r
+        return None
+    if isinstance(e, ast.Call) and call_name(e) in _ORDER_KEEPING:
+        if isinstance(e.func, ast.Attribute) and not e.args and not (isinstance(e.func.value, ast.Name) and e.func.value.id in ("numpy", "np")):
+            return _request_ordered(e.func.value, fi, cfg, IN, at, req, depth + 1)
+        if e.args:
+            return _request_ordered(e.args[0], fi, cfg, IN, at, req, depth + 1)
+        return None
+    if isinstance(e, (ast.ListComp, ast.GeneratorExp)) and len(e.generators) == 1 and not e.generators[0].ifs:
+        g = e.generators[0]
+        if isinstance(g.target, ast.Name) and any(isinstance(x, ast.Name) and x.id == g.target.id for x in ast.walk(e.elt)):
+            return _request_ordered(g.iter, fi, cfg, IN, at, req, depth + 1)
+        return None
+    if isinstance(e, (ast.List, ast.Tuple)) and len(e.elts) == 1 and isinstance(e.elts[0], ast.Starred):
+        return _request_ordered(e.elts[0].value, fi, cfg, IN, at, req, depth + 1)
+    return None
+
+
+def _r02_6f_split_order(chk, repo, copies):
+    for q, fi in sorted(repo.funcs.items()):
+        mod = getattr(fi.module, "name", None)
+        if mod not in ("esutil.sfile", "esutil.recfile.Util") or q in copies:
+            continue
+        calls = []
+        for x in walk_no_nested(fi.node):
+            if isinstance(x, ast.Call) and dotted_name(x.func):
+                d = dotted_name(x.func)
+                if call_name(x) == "split_fields" or repo.resolve_name(fi.module, d) in copies:
+                    calls.append(x)
+        if not calls:
+            continue
+        cfg = cfg_of(fi)
+        view = cfg.view()
+        IN, _ = view.reaching_defs()
+        req = [p for p in fi.params if p in SYN]
+        for i, c in enumerate(calls):
+            at = next((n for n in view.nodes() if any(y is c for y in rules.stmts_calls(n))), None)
+            sel = kwarg(c, "fields")
+            if sel is None and len(c.args) > 1 and not any(isinstance(a, ast.Starred) for a in c.args[:2]):
+                sel = c.args[1]
+            key = "%s::split-in-result-order::%d" % (fi.qualname, i)
+            msg = "the tuple returned for split=True lists the columns of the structured result in the result's own (file) order"
+            if any(k.arg is None for k in c.keywords) or any(isinstance(a, ast.Starred) for a in c.args):
+                chk.ob("R02.6f", key, None, fi.where(c), msg + ": `%s` passes its arguments through * / **" % norm(c))
+                continue
+            if sel is None or (isinstance(sel, ast.Constant) and sel.value is None):
+                chk.ob("R02.6f", key, True, fi.where(c), msg + ": `%s` selects every field in dtype order" % norm(c))
+                continue
+            if at is None:
+                chk.ob("R02.6f", key, None, fi.where(c), msg + ": the statement of `%s` was not found in the control-flow graph" % norm(c))
+                continue
+            src = _request_ordered(sel, fi, cfg, IN, at, req)
+            if src is not None:
+                chk.ob("R02.6f", key, False, fi.where(c),
+                       msg + ": `%s` selects the fields in the order of `%s`, which carries the order (and the repeats) of the caller's "
+                       "%s= request, so a request that is not in file order gives a tuple that disagrees with the structured read of the "
+                       "same selection" % (norm(c), norm(sel), src))
+                continue
+            first = norm(c.args[0]) if c.args else norm(kwarg(c, "data")) if kwarg(c, "data") is not None else None
+            inner = sel
+            while isinstance(inner, ast.Call) and call_name(inner) in ("list", "tuple") and len(inner.args) == 1:
+                inner = inner.args[0]
+            if first is not None and rules.xnorm(inner, fi.node) in (first + ".dtype.names", rules.xnorm(ast.parse(first + ".dtype.names", mode="eval").body, fi.node)):
+                chk.ob("R02.6f", key, True, fi.where(c), msg + ": `%s` selects the result's own dtype names" % norm(c))
+            else:
+                chk.ob("R02.6f", key, None, fi.where(c), msg + ": the field selector `%s` of `%s` is not recognised" % (norm(sel), norm(c)))
 
 
 def _only_element_of(fi, cfg, k):
@@ -3511,6 +3831,7 @@ def r02_7(chk, cfun, S):
     sem = _r02_7j_semantic(chk, cfun)
     if not done:
         _r02_7j_structural(chk, cfun, sem)
+    _r02_7k_binary_movers(chk, cfun)
 
 
 def _r02_7i_absolute_seek(fn):
@@ -4638,6 +4959,749 @@ class _SkipCount(object):
                 "NO_NL": "a chunk without a newline (a row longer than the buffer fills it before the newline is reached)",
                 "FULL": "a whole line"}.get(cls, "the character %r" % chr(cls[1]) if isinstance(cls, tuple) and 0 <= cls[1] < 256 else str(cls))
         return "%s (line %s) returned %s" % (s["text"], s["line"], what)
+
+
+# ---------------------------------------------------------------------------
+# R02.7k: a binary skip moves the file cursor by a distance that its argument alone determines.
+#
+# The binary column reader keeps its own account of where the cursor is (current_offset += seek_distance after do_seek(seek_distance),
+# whole rows after skip_binary_rows(n)); that account is right only if the helper it calls leaves the cursor exactly that far ahead,
+# whatever bytes lie in the skipped stretch.  Every method of the class that the binary readers reach (branches on the file type
+# resolved for a binary file), that takes one integer and touches the stream with a positioning or reading primitive, is walked
+# once per control-flow path with the displacement of the cursor as a polynomial over the parameter and the members:
+# fseek-family(f, e, SEEK_CUR) adds e, a getc adds 1, fread(p, s, n, f) adds s*n, a counted loop whose round moves a
+# round-independent distance d adds rounds*d, ftell gives entry + displacement and SEEK_SET to e makes the displacement e - entry.
+# A test of what was read from the file is feasible both ways (the skipped bytes are arbitrary: property quantifier over all tables)
+# -- except the test of an int-held getc result against EOF, of feof / ferror, and of the status of a seek or read, whose failure
+# side cannot happen inside the table (rows are range checked).  A getc result narrowed to (signed) char compares equal to EOF for
+# the data byte 0xFF, so that test IS feasible both ways.  A loop left on such a test is left in an arbitrary round K.  Every
+# path that returns normally for a positive argument p must show the displacement p (bytes) or mRowSize*p (rows); a displacement
+# that still contains K, or is another polynomial in p, is reported, as is an exception raised on a test of the bytes.  Anything
+# outside this fragment gives no verdict.
+# ---------------------------------------------------------------------------
+class _MvUnsup(Exception):
+    pass
+
+
+_MV_SEEK = ("fseek", "fseeko", "fseeko64", "_fseeki64", "myfseeko", "fseek_unlocked")     # (FILE*, offset, whence); myfseeko: the file's wrapper
+_MV_TELL = ("ftell", "ftello", "ftello64", "_ftelli64")
+_MV_GETC = ("fgetc", "getc", "getc_unlocked", "fgetc_unlocked", "_IO_getc")
+_MV_READ = ("fread", "fread_unlocked")
+_MV_EOFQ = ("feof", "ferror", "feof_unlocked", "ferror_unlocked")
+_MV_NEUTRAL = ("clearerr", "fileno", "fflush")
+_MV_OTHER = ("fgets", "getline", "getdelim", "fscanf", "ungetc", "rewind", "fsetpos", "fgetpos", "fputc", "fwrite", "fprintf", "fputs",
+             "fclose", "fopen", "freopen", "setvbuf")
+_MV_INT_TYPES = ("long", "int", "short", "long long", "unsigned long", "unsigned int", "unsigned long long", "size_t", "ssize_t",
+                 "off_t", "npy_intp", "npy_int64", "Py_ssize_t", "unsigned short")
+
+
+def _mv_type(x):
+    t = (x.get("type", {}) or {})
+    return (t.get("desugaredQualType") or t.get("qualType") or "").replace("const ", "").strip()
+
+
+def _mv_binary_cond(cond):
+    """True / False when the condition is decided by the file being binary, 'skip' when it is about the file type (or a text-only
+    attribute) in a way that is not decided, None when it has nothing to do with the file type"""
+    txt = cfront.render(cond)
+    c = cfront.strip(cond)
+    if c.get("kind") == "BinaryOperator" and c.get("opcode") in ("==", "!="):
+        l, r = (cfront.render(y) for y in _sk_inner(c))
+        if "mFileType" in (l, r):
+            other = r if l == "mFileType" else l
+            if other == "BINARY_FILE":
+                return c["opcode"] == "=="
+            if other in ("ASCII_FILE", "TEXT_FILE"):
+                return c["opcode"] == "!="
+    if "mFileType" in txt or "mReadAsWhitespace" in txt or "mDelim" in txt or "BINARY_FILE" in txt or "ASCII_FILE" in txt:
+        return "skip"
+    return None
+
+
+def _mv_callees(fn, binary):
+    """names of the member functions called in fn on paths that a binary (binary=True) / text file can take"""
+    out = []
+
+    def visit(x):
+        if not isinstance(x, dict):
+            return
+        k = x.get("kind")
+        kids = [c for c in (x.get("inner", []) or []) if isinstance(c, dict)]
+        if k == "IfStmt" and len(kids) >= 2:
+            d = _mv_binary_cond(kids[0])
+            if d == "skip":
+                return
+            if d is not None:
+                take = d if binary else not d
+                visit(kids[0])
+                if take:
+                    visit(kids[1])
+                elif len(kids) > 2:
+                    visit(kids[2])
+                return
+        if k == "SwitchStmt" and kids and _mv_binary_cond(kids[0]) is not None:
+            return
+        if k == "ConditionalOperator" and kids and _mv_binary_cond(kids[0]) is not None:
+            return
+        if k == "CXXMemberCallExpr":
+            c0 = cfront.strip(kids[0]) if kids else {}
+            if c0.get("kind") == "MemberExpr" and cfront.strip((c0.get("inner") or [{}])[0]).get("kind") == "CXXThisExpr":
+                out.append(cfront.callee_name(x))
+        for c in kids:
+            visit(c)
+
+    visit(cfront.body_of(fn))
+    return out
+
+
+def _mv_reach(cfun, roots, binary):
+    seen, todo = set(), list(roots)
+    while todo:
+        nm = todo.pop()
+        if nm in seen or ("Records::" + nm) not in cfun:
+            continue
+        seen.add(nm)
+        todo.extend(_mv_callees(cfun["Records::" + nm], binary))
+    return seen
+
+
+def _mv_stream_calls(fn):
+    return [c for c in cfront.calls_in(cfront.body_of(fn)) if c.get("kind") == "CallExpr" and
+            cfront.callee_name(c) in _MV_SEEK + _MV_TELL + _MV_GETC + _MV_READ + _MV_OTHER and any(_sk_is_file(a) for a in cfront.call_args(c))]
+
+
+class _ByteMove(object):
+    def __init__(self, fn, cfun, depth=0):
+        import sympy as sp
+        from vcheck import csymx
+        self.sp = sp
+        self.fn = fn
+        self.cfun = cfun
+        self.depth = depth
+        self.L = csymx.Lower(fn)
+        self.P0 = sp.Symbol("ENTRY@pos")
+        self.types = {}
+        for x in fn.get("inner", []) or []:
+            if isinstance(x, dict) and x.get("kind") == "ParmVarDecl":
+                self.types[x.get("name")] = _mv_type(x)
+        for x in cfront.walk(cfront.body_of(fn)):
+            if x.get("kind") == "VarDecl" and x.get("name"):
+                self.types[x["name"]] = _mv_type(x)
+            if x.get("kind") in ("SwitchStmt", "GotoStmt", "LabelStmt", "CXXTryStmt", "IndirectGotoStmt", "CXXForRangeStmt", "LambdaExpr", "DoStmt"):
+                raise _MvUnsup("%s in %s" % (x.get("kind"), fn.get("name")))
+        self.nk = 0
+        self.found = []          # (line, text) of content tests met
+
+    # -- state ---------------------------------------------------------------------------------------------------------------------
+    def fork(self, st):
+        return dict(disp=st["disp"], env=dict(st["env"]), conds=list(st["conds"]), holders=dict(st["holders"]), tainted=set(st["tainted"]),
+                    content=list(st["content"]))
+
+    def expr(self, st, x):
+        sp = self.sp
+        self.L.env = st["env"]
+        try:
+            e = self.L.expr(x)
+        except Exception:
+            return None
+        try:
+            tells = [a for a in e.atoms(sp.Function) if type(a).__name__ in _MV_TELL] if hasattr(e, "atoms") else []
+            for a in tells:
+                e = e.subs(a, self.P0 + st["disp"])
+        except Exception:
+            return None
+        return e
+
+    # -- what an expression has to do with the bytes of the file ---------------------------------------------------------------------
+    def byte_of(self, st, x):
+        """None, or dict(narrow=None|'signed'|'unsigned', line) when x evaluates to a byte taken from the file by getc"""
+        k = x.get("kind")
+        kids = _sk_inner(x)
+        if k in ("ParenExpr", "ConstantExpr", "ExprWithCleanups") and kids:
+            return self.byte_of(st, kids[0])
+        if k in ("ImplicitCastExpr", "CStyleCastExpr", "CXXStaticCastExpr", "CXXFunctionalCastExpr", "CXXReinterpretCastExpr") and kids:
+            b = self.byte_of(st, kids[-1] if k == "CXXFunctionalCastExpr" else kids[0])
+            if b is None:
+                return None
+            t = _mv_type(x)
+            if b["narrow"] is None and x.get("castKind", "IntegralCast") in ("IntegralCast", "NoOp"):
+                if t in ("char", "signed char", "int8_t", "npy_int8"):
+                    return dict(b, narrow="signed")
+                if t in ("unsigned char", "uint8_t", "npy_uint8"):
+                    return dict(b, narrow="unsigned")
+            return b
+        if k == "CallExpr" and cfront.callee_name(x) in _MV_GETC:
+            return dict(narrow=None, line=x.get("line", 0))
+        if k == "DeclRefExpr":
+            return st["holders"].get(x.get("referencedDecl", {}).get("name"))
+        if k == "BinaryOperator" and x.get("opcode") == "=" and len(kids) == 2:
+            nm = _sk_name(kids[0])
+            b = self.byte_of(st, kids[1])
+            if nm and b is not None:
+                return self.held(nm, b)
+        return None
+
+    def held(self, nm, b):
+        t = self.types.get(nm, "")
+        if b["narrow"] is None:
+            if t in ("char", "signed char", "int8_t", "npy_int8"):
+                return dict(b, narrow="signed")
+            if t in ("unsigned char", "uint8_t", "npy_uint8"):
+                return dict(b, narrow="unsigned")
+        return b
+
+    def mentions_content(self, st, x):
+        for y in cfront.walk(x):
+            if y.get("kind") == "DeclRefExpr":
+                nm = y.get("referencedDecl", {}).get("name")
+                if nm in st["holders"] or nm in st["tainted"]:
+                    return True
+            if y.get("kind") == "CallExpr" and cfront.callee_name(y) in _MV_GETC + _MV_READ:
+                return True
+        return False
+
+    def classify(self, st, cond):
+        """('plain', term) | ('never', truth of the side that cannot happen) | ('content', text) for a branch condition"""
+        c = cfront.strip(cond)
+        k = c.get("kind")
+        kids = _sk_inner(c)
+        if k == "UnaryOperator" and c.get("opcode") == "!" and kids:
+            kind, v = self.classify(st, kids[0])
+            if kind == "never":
+                return kind, (not v)
+            if kind == "plain":
+                return kind, (self.sp.Not(v) if v is not None and (getattr(v, "is_Boolean", False) or getattr(v, "is_Relational", False)) else None)
+            return kind, v
+        if k == "BinaryOperator" and c.get("opcode") in ("&&", "||") and len(kids) == 2:
+            parts = [self.classify(st, y) for y in kids]
+            isand = c["opcode"] == "&&"
+            keep = []
+            for kind, v in parts:
+                if kind == "never" and v == (not isand):
+                    continue            # `A && <always true here>`, `A || <always false here>`
+                keep.append((kind, v))
+            if not keep:
+                return "never", (not isand)
+            if len(keep) == 1:
+                return keep[0]
+            if any(kind == "content" for kind, v in keep):
+                return "content", cfront.render(cond)
+            if any(kind == "never" for kind, v in keep):
+                raise _MvUnsup("condition %s" % cfront.render(cond))
+            vs = [v for kind, v in keep]
+            if any(v is None for v in vs):
+                return "plain", None
+            try:
+                return "plain", (self.sp.And if isand else self.sp.Or)(*vs)
+            except Exception:
+                return "plain", None
+        if k == "CallExpr" and cfront.callee_name(c) in _MV_EOFQ:
+            return "never", True
+        if k == "CallExpr" and cfront.callee_name(c) in _MV_SEEK:
+            return "never", True        # non-zero status: the seek failed
+        if k == "BinaryOperator" and c.get("opcode") in ("==", "!=", "<", ">", "<=", ">=") and len(kids) == 2:
+            for a, b, flip in ((kids[0], kids[1], False), (kids[1], kids[0], True)):
+                op = c["opcode"]
+                if flip:
+                    op = {"<": ">", ">": "<", "<=": ">=", ">=": "<="}.get(op, op)
+                kv = _sk_const(b)
+                a0 = cfront.strip(a)
+                if a0.get("kind") == "CallExpr" and cfront.callee_name(a0) in _MV_SEEK and kv is not None:
+                    if (op, kv) in (("!=", 0), ("<", 0), ("==", -1), (">", 0)):
+                        return "never", True
+                    if (op, kv) in (("==", 0), (">=", 0), ("!=", -1)):
+                        return "never", False
+                    raise _MvUnsup("status test %s" % cfront.render(cond))
+                if a0.get("kind") == "CallExpr" and cfront.callee_name(a0) in _MV_READ:
+                    want = cfront.render(cfront.call_args(a0)[2]) if len(cfront.call_args(a0)) == 4 else None
+                    other = cfront.render(b)
+                    if (op in ("!=", "<") and other == want) or (op == "==" and kv == 0) or (op == "<" and kv == 1) or (op == "<=" and kv == 0):
+                        return "never", True
+                    if (op in ("==", ">=") and other == want) or (op in ("!=", ">") and kv == 0) or (op == ">=" and kv == 1):
+                        return "never", False
+                    raise _MvUnsup("status test %s" % cfront.render(cond))
+                bt = self.byte_of(st, a)
+                if bt is not None and kv is not None:
+                    if bt["narrow"] is None:
+                        # the int result of getc: 0..255, or EOF at the end of the file / on error
+                        if (op == "==" and kv == -1) or (op == "<" and kv == 0) or (op == "<=" and kv == -1):
+                            return "never", True
+                        if (op == "!=" and kv == -1) or (op == ">=" and kv == 0) or (op == ">" and kv == -1):
+                            return "never", False
+                        return "content", "%s, the byte read at line %s" % (cfront.render(cond), bt["line"])
+                    if bt["narrow"] == "unsigned":
+                        if kv < 0 or kv > 255:
+                            if op in ("==", "<", "<=") and kv < 0 or op in (">", ">=") and kv > 255:
+                                return "never", True
+                            if op in ("!=", ">", ">=") and kv < 0 or op in ("<", "<=") and kv > 255:
+                                return "never", False
+                        return "content", "%s, the byte read at line %s" % (cfront.render(cond), bt["line"])
+                    if kv == -1 and op in ("==", "!="):
+                        return "content", "%s: the getc result of line %s was narrowed to char, so the data byte 0xFF compares equal to EOF (-1)" \
+                            % (cfront.render(cond), bt["line"])
+                    return "content", "%s, the byte read at line %s" % (cfront.render(cond), bt["line"])
+        if self.mentions_content(st, c):
+            bt = self.byte_of(st, c)
+            if bt is not None and bt["narrow"] is None and k != "BinaryOperator":
+                return "content", "%s, the byte read at line %s" % (cfront.render(cond), bt["line"])
+            return "content", cfront.render(cond)
+        return "plain", self.expr(st, cond)
+
+    # -- effects of one expression / declaration ---------------------------------------------------------------------------------------
+    def effects(self, st, x):
+        sp = self.sp
+        calls = cfront.calls_in(x)
+        for c in (list(reversed(calls)) if len(calls) > 1 else calls):
+            nm = cfront.callee_name(c)
+            args = cfront.call_args(c)
+            if c.get("kind") == "CXXMemberCallExpr":
+                c0 = cfront.strip(c["inner"][0])
+                if c0.get("kind") == "MemberExpr" and cfront.strip((c0.get("inner") or [{}])[0]).get("kind") == "CXXThisExpr":
+                    callee = self.cfun.get("Records::%s" % nm)
+                    if callee is None or not _mv_touches_stream(callee, self.cfun):
+                        continue
+                    if self.depth >= 2 or len(cfront.params_of(callee)) != 1 or len(args) != 1:
+                        raise _MvUnsup("call of %s, which moves the cursor" % nm)
+                    sub = _mv_summary(callee, self.cfun, self.depth + 1)
+                    a = self.expr(st, args[0])
+                    if sub is None or a is None:
+                        raise _MvUnsup("call of %s, which moves the cursor in a way that is not followed" % nm)
+                    st["disp"] = st["disp"] + sub.subs(sp.Symbol(cfront.params_of(callee)[0]), a)
+                    continue
+                if any(_sk_is_file(a) for a in args):
+                    raise _MvUnsup("the stream is handed to %s" % nm)
+                continue
+            if not any(_sk_is_file(a) for a in args):
+                continue
+            if nm in _MV_SEEK and len(args) == 3:
+                e = self.expr(st, args[1])
+                wh = _sk_const(args[2])
+                if e is None or wh not in (0, 1):
+                    raise _MvUnsup("seek %s" % cfront.render(c))
+                st["disp"] = (st["disp"] + e) if wh == 1 else (e - self.P0)
+            elif nm in _MV_GETC and len(args) == 1:
+                st["disp"] = st["disp"] + 1
+            elif nm in _MV_READ and len(args) == 4:
+                size = sp.Integer(1) if cfront.strip(args[1]).get("kind") == "UnaryExprOrTypeTraitExpr" and \
+                    "char" in (cfront.strip(args[1]).get("argType", {}) or {}).get("qualType", "") else self.expr(st, args[1])
+                cnt = self.expr(st, args[2])
+                if size is None or cnt is None:
+                    raise _MvUnsup("read %s" % cfront.render(c))
+                st["disp"] = st["disp"] + size * cnt
+                b = _sk_name(args[0])
+                if b:
+                    st["tainted"].add(b)
+            elif nm in _MV_TELL + _MV_EOFQ + _MV_NEUTRAL:
+                pass
+            else:
+                raise _MvUnsup("the stream is handed to %s" % nm)
+        # assignments to plain locals
+        k = x.get("kind")
+        if k == "DeclStmt":
+            for v in _sk_inner(x):
+                if v.get("kind") != "VarDecl":
+                    continue
+                nm = v.get("name")
+                st["env"].pop(nm, None)
+                st["holders"].pop(nm, None)
+                ini = _sk_inner(v)
+                if ini and "init" in v:
+                    self.assign(st, nm, ini[-1], v.get("line", 0))
+            return
+        for y in cfront.walk(x):
+            yk = y.get("kind")
+            kids = _sk_inner(y)
+            if yk == "BinaryOperator" and y.get("opcode") == "=" and len(kids) == 2:
+                nm = _sk_name(kids[0])
+                if nm:
+                    self.assign(st, nm, kids[1], y.get("line", 0), top=(y is cfront.strip(x)))
+            elif yk == "CompoundAssignOperator" and len(kids) == 2:
+                nm = _sk_name(kids[0])
+                if nm:
+                    old = st["env"].get(nm, sp.Symbol(nm) if nm in cfront.params_of(self.fn) else None)
+                    e = self.expr(st, kids[1]) if not self.mentions_content(st, kids[1]) else None
+                    if old is not None and e is not None and y.get("opcode") in ("+=", "-=") and not cfront.calls_in(kids[1]):
+                        st["env"][nm] = old + e if y["opcode"] == "+=" else old - e
+                    else:
+                        st["env"][nm] = sp.Symbol("%s@%s" % (nm, y.get("line", 0)))
+                        if self.mentions_content(st, kids[1]):
+                            st["tainted"].add(nm)
+            elif yk == "UnaryOperator" and y.get("opcode") in ("++", "--") and kids:
+                nm = _sk_name(kids[0])
+                if nm:
+                    old = st["env"].get(nm, sp.Symbol(nm) if nm in cfront.params_of(self.fn) else None)
+                    st["env"][nm] = (old + (1 if y["opcode"] == "++" else -1)) if old is not None else sp.Symbol("%s@%s" % (nm, y.get("line", 0)))
+
+    def assign(self, st, nm, rhs, line, top=True):
+        sp = self.sp
+        b = self.byte_of(st, rhs)
+        st["holders"].pop(nm, None)
+        if b is not None:
+            st["holders"][nm] = self.held(nm, b)
+            st["env"][nm] = sp.Symbol("%s@%s" % (nm, line))
+            return
+        if self.mentions_content(st, rhs):
+            st["tainted"].add(nm)
+            st["env"][nm] = sp.Symbol("%s@%s" % (nm, line))
+            return
+        st["tainted"].discard(nm)
+        r0 = cfront.strip(rhs)
+        if r0.get("kind") == "CallExpr" and cfront.callee_name(r0) in _MV_TELL:
+            st["env"][nm] = self.P0 + st["disp"]
+            return
+        e = self.expr(st, rhs) if top and not cfront.calls_in(rhs) else None
+        st["env"][nm] = e if e is not None else sp.Symbol("%s@%s" % (nm, line))
+
+    # -- statements: list of (how the statement was left, state) -------------------------------------------------------------------------
+    def block(self, stmts, st):
+        live = [st]
+        out = []
+        for x in stmts:
+            nxt = []
+            for s in live:
+                for kind, s2 in self.stmt(x, s):
+                    (nxt if kind == "fall" else out).append((kind, s2) if kind != "fall" else s2)
+            live = nxt
+            if len(live) + len(out) > 48:
+                raise _MvUnsup("too many paths")
+        return [("fall", s) for s in live] + out
+
+    def branch(self, st, cond, then, els):
+        kids = _sk_inner(cfront.strip(cond))
+        shortc = any(y.get("kind") == "BinaryOperator" and y.get("opcode") in ("&&", "||") for y in cfront.walk(cond))
+        movers = [c for c in cfront.calls_in(cond) if any(_sk_is_file(a) for a in cfront.call_args(c)) and cfront.callee_name(c) not in _MV_EOFQ + _MV_TELL]
+        if movers and shortc:
+            raise _MvUnsup("the cursor moves inside the short-circuit condition %s" % cfront.render(cond))
+        kind, v = self.classify(st, cond)       # before the effects: the holders named in the condition are those set so far or in it
+        self.effects(st, cond)
+        out = []
+        sides = []
+        if kind == "never":
+            sides = [(not v, None)]
+        elif kind == "content":
+            self.found.append(v)
+            sides = [(True, v), (False, v)]
+        else:
+            sides = [(True, None), (False, None)]
+        for truth, content in sides:
+            s = self.fork(st)
+            if content is not None:
+                s["content"].append(content)
+            elif kind == "plain":
+                s["conds"].append((v, truth, cfront.render(cond)))
+            body = then if truth else els
+            if body is None:
+                out.append(("fall", s))
+            else:
+                out.extend(self.stmt(body, s))
+        return out
+
+    def stmt(self, x, st):
+        sp = self.sp
+        k = x.get("kind")
+        kids = [c for c in (x.get("inner", []) or []) if isinstance(c, dict)]
+        if k == "CompoundStmt":
+            return self.block([c for c in kids if c.get("kind")], st)
+        if k == "NullStmt":
+            return [("fall", st)]
+        if k == "ReturnStmt":
+            self.effects(st, x)
+            return [("return", st)]
+        if k == "BreakStmt":
+            return [("break", st)]
+        if k == "ContinueStmt":
+            return [("continue", st)]
+        if any(y.get("kind") == "CXXThrowExpr" for y in cfront.walk(x)) and k not in ("IfStmt", "ForStmt", "WhileStmt"):
+            return [("throw", st)]
+        if k == "IfStmt":
+            real = [c for c in kids if c.get("kind")]
+            return self.branch(st, real[0], real[1], real[2] if len(real) > 2 else None)
+        if k == "ForStmt":
+            if len(kids) < 4:
+                raise _MvUnsup("for statement form")
+            init, test, inc, body = kids[0], kids[-3], kids[-2], kids[-1]
+            ivar = lo = None
+            i0 = cfront.strip(init) if init.get("kind") else {}
+            if i0.get("kind") == "DeclStmt" and len(_sk_inner(i0)) == 1 and "init" in _sk_inner(i0)[0]:
+                v = _sk_inner(i0)[0]
+                ivar, lo = v.get("name"), _sk_inner(v)[-1]
+            elif i0.get("kind") == "BinaryOperator" and i0.get("opcode") == "=":
+                ivar, lo = _sk_name(_sk_inner(i0)[0]), _sk_inner(i0)[1]
+            t = cfront.strip(test) if test.get("kind") else {}
+            if ivar is None or not (t.get("kind") == "BinaryOperator" and t.get("opcode") in ("<", "<=", "!=") and _sk_name(_sk_inner(t)[0]) == ivar):
+                raise _MvUnsup("loop header of line %s" % x.get("line", 0))
+            if cfront.calls_in(test) or cfront.calls_in(init) or cfront.calls_in(inc):
+                raise _MvUnsup("call in the loop header of line %s" % x.get("line", 0))
+            lo_e, hi_e = self.expr(st, lo), self.expr(st, _sk_inner(t)[1])
+            if lo_e is None or hi_e is None:
+                raise _MvUnsup("loop bounds of line %s" % x.get("line", 0))
+            if t["opcode"] == "<=":
+                hi_e = hi_e + 1
+            writes = [y for part in (inc, body) for y in cfront.walk(part)
+                      if (y.get("kind") == "UnaryOperator" and y.get("opcode") in ("++", "--") or y.get("kind") == "CompoundAssignOperator"
+                          or (y.get("kind") == "BinaryOperator" and y.get("opcode") == "=")) and _sk_name(_sk_inner(y)[0]) == ivar]
+            okstep = len(writes) == 1 and any(writes[0] is y for y in cfront.walk(inc)) and \
+                (writes[0].get("opcode") == "++" or (writes[0].get("opcode") == "+=" and _sk_const(_sk_inner(writes[0])[1]) == 1))
+            if not okstep:
+                raise _MvUnsup("the loop counter %s is not stepped by one in the loop header only" % ivar)
+            bound_names = {str(s) for s in hi_e.free_symbols}
+            for y in cfront.walk(body):
+                if y.get("kind") in ("BinaryOperator", "CompoundAssignOperator", "UnaryOperator") and \
+                        (y.get("opcode") in ("=", "++", "--") or y.get("kind") == "CompoundAssignOperator") and _sk_name(_sk_inner(y)[0]) in bound_names:
+                    raise _MvUnsup("the loop bound is changed in the loop")
+            return self.counted(x, st, body, ivar, sp.expand(hi_e - lo_e))
+        if k == "WhileStmt":
+            real = [c for c in kids if c.get("kind")]
+            cond, body = real[0], real[-1]
+            if cfront.calls_in(cond):
+                raise _MvUnsup("call in the loop condition of line %s" % x.get("line", 0))
+            t = cfront.strip(cond)
+            var = want = hi = None
+            if t.get("kind") == "DeclRefExpr":
+                var, want = _sk_name(t), "-"
+            elif t.get("kind") == "BinaryOperator" and len(_sk_inner(t)) == 2:
+                l, r = _sk_inner(t)
+                op = t.get("opcode")
+                if op in (">", "!=") and _sk_name(l) and _sk_const(r) == 0:
+                    var, want = _sk_name(l), "-"
+                elif op == "<" and _sk_const(l) == 0 and _sk_name(r):
+                    var, want = _sk_name(r), "-"
+                elif op == "<" and _sk_name(l):
+                    var, want, hi = _sk_name(l), "+", self.expr(st, r)
+                elif op == ">" and _sk_name(r):
+                    var, want, hi = _sk_name(r), "+", self.expr(st, l)
+            if var is None or (want == "+" and hi is None):
+                raise _MvUnsup("loop condition %s" % cfront.render(cond))
+            cur = st["env"].get(var, sp.Symbol(var) if var in cfront.params_of(self.fn) else None)
+            if cur is None or any("@" in str(s) for s in cur.free_symbols):
+                raise _MvUnsup("loop condition %s: the number of rounds is not known" % cfront.render(cond))
+            top = [c for c in _sk_inner(body)] if body.get("kind") == "CompoundStmt" else [body]
+            steps = []
+            for y in top:
+                y0 = cfront.strip(y)
+                if y0.get("kind") == "UnaryOperator" and y0.get("opcode") in ("++", "--") and _sk_name(_sk_inner(y0)[0]) == var:
+                    steps.append((y, y0["opcode"][0]))
+                elif y0.get("kind") == "CompoundAssignOperator" and y0.get("opcode") in ("+=", "-=") and _sk_name(_sk_inner(y0)[0]) == var \
+                        and _sk_const(_sk_inner(y0)[1]) == 1:
+                    steps.append((y, y0["opcode"][0]))
+            allw = [y for y in cfront.walk(body) if (y.get("kind") == "UnaryOperator" and y.get("opcode") in ("++", "--") or
+                                                     y.get("kind") == "CompoundAssignOperator" or (y.get("kind") == "BinaryOperator" and y.get("opcode") == "="))
+                    and _sk_name(_sk_inner(y)[0]) == var]
+            if len(steps) != 1 or steps[0][1] != want or len(allw) != 1:
+                raise _MvUnsup("the loop counter %s is not stepped exactly once per round" % var)
+            if any(y.get("kind") == "ContinueStmt" for y in cfront.walk(body)):
+                raise _MvUnsup("continue in a while loop")
+            rounds = cur if want == "-" else sp.expand(hi - cur)
+            rest = dict(kind="CompoundStmt", inner=[y for y in top if y is not steps[0][0]], line=x.get("line", 0))
+            res = self.counted(x, st, rest, var, rounds, after=(sp.Integer(0) if want == "-" else hi))
+            return res
+        self.effects(st, x)
+        return [("fall", st)]
+
+    def counted(self, x, st, body, ivar, rounds, after=None):
+        """a loop of `rounds` rounds (when none is left early); the body is walked once from a symbolic round start"""
+        sp = self.sp
+        R = sp.Symbol("ROUNDSTART@%s" % x.get("line", 0))
+        i = sp.Symbol("%s@round" % ivar)
+        inner = self.fork(st)
+        inner["disp"] = R
+        inner["env"][ivar] = i
+        inner["conds"] = []
+        inner["content"] = []
+        ends = self.stmt(body, inner)
+        cont = [s for kind, s in ends if kind in ("fall", "continue")]
+        early = [(kind, s) for kind, s in ends if kind in ("break", "return", "throw")]
+        if not cont:
+            raise _MvUnsup("the loop of line %s never completes a round" % x.get("line", 0))
+        ds = {sp.expand(s["disp"] - R) for s in cont}
+        if len(ds) != 1:
+            raise _MvUnsup("the rounds of the loop of line %s move by different distances %s" % (x.get("line", 0), sorted(map(str, ds))))
+        d = ds.pop()
+        if d.has(R) or any("@" in str(sy) for sy in d.free_symbols):
+            raise _MvUnsup("the distance moved per round, %s, depends on the round" % d)
+        out = []
+        for kind, s in early:
+            if not s["content"]:
+                if kind == "throw":
+                    continue            # an error path that does not depend on the bytes
+                raise _MvUnsup("the loop of line %s is left early on a test that is not about the bytes read" % x.get("line", 0))
+            part = sp.expand(s["disp"] - R)
+            if part.has(R) or any("@" in str(sy) for sy in part.free_symbols):
+                raise _MvUnsup("distance moved before the loop is left")
+            self.nk += 1
+            K = sp.Symbol("K%d" % self.nk, integer=True, nonnegative=True)
+            o = self.fork(st)
+            o["disp"] = st["disp"] + K * d + part
+            o["content"] = st["content"] + ["the loop of line %s is left in an arbitrary round %s when %s" % (x.get("line", 0), K, "; ".join(s["content"]))]
+            o["env"][ivar] = sp.Symbol("%s@%s" % (ivar, x.get("line", 0)))
+            out.append((("fall" if kind == "break" else kind), o))
+        done = self.fork(st)
+        done["disp"] = st["disp"] + rounds * d
+        for s in cont:
+            for nm in set(s["env"]) | set(st["env"]):
+                if nm != ivar and s["env"].get(nm) != st["env"].get(nm):
+                    done["env"][nm] = sp.Symbol("%s@after%s" % (nm, x.get("line", 0)))
+            done["tainted"] |= s["tainted"]
+            for nm, h in s["holders"].items():
+                done["holders"].setdefault(nm, h)
+        if after is not None:
+            done["env"][ivar] = after
+        else:
+            done["env"].pop(ivar, None)
+        out.append(("fall", done))
+        return out
+
+    def run(self):
+        sp = self.sp
+        st = dict(disp=sp.Integer(0), env={}, conds=[], holders={}, tainted=set(), content=[])
+        return self.stmt(cfront.body_of(self.fn), st)
+
+
+_mv_touch_cache = {}
+
+
+def _mv_touches_stream(fn, cfun, depth=0):
+    key = id(fn)
+    if key in _mv_touch_cache:
+        return _mv_touch_cache[key]
+    _mv_touch_cache[key] = False
+    r = any(_sk_is_file(y) for y in cfront.walk(cfront.body_of(fn)) if y.get("kind") in ("MemberExpr", "DeclRefExpr"))
+    if not r and depth < 3:
+        for c in cfront.calls_in(cfront.body_of(fn)):
+            callee = cfun.get("Records::%s" % cfront.callee_name(c)) if c.get("kind") == "CXXMemberCallExpr" else None
+            if callee is not None and callee is not fn and _mv_touches_stream(callee, cfun, depth + 1):
+                r = True
+                break
+    _mv_touch_cache[key] = r
+    return r
+
+
+def _mv_feasible(sp, p, conds, lowest):
+    """can the plain conditions of a path hold for some integer p >= lowest?  True / False / None (not decided)"""
+    dom = sp.Interval(lowest, sp.oo)
+    for c, truth, txt in conds:
+        if c is None:
+            return None
+        try:
+            c = c if truth else sp.Not(c)
+            if c is sp.true:
+                continue
+            if c is sp.false:
+                return False
+            if c.free_symbols != {p}:
+                return None
+            dom = dom.intersect(sp.solveset(c, p, domain=sp.S.Reals))
+        except Exception:
+            return None
+    if dom is sp.S.EmptySet:
+        return False
+    parts = dom.args if isinstance(dom, sp.Union) else [dom]
+    for I in parts:
+        if isinstance(I, sp.FiniteSet):
+            if any(getattr(e, "is_integer", False) for e in I):
+                return True
+            continue
+        if isinstance(I, sp.Interval):
+            lo = sp.ceiling(I.start)
+            if I.left_open and lo == I.start:
+                lo = lo + 1
+            if I.contains(lo) == sp.true:
+                return True
+            continue
+        return None
+    return False
+
+
+def _mv_paths(fn, cfun, depth=0):
+    an = _ByteMove(fn, cfun, depth)
+    return an, [(kind, s) for kind, s in an.run() if kind in ("fall", "return", "throw")]
+
+
+def _mv_summary(fn, cfun, depth):
+    """displacement term of a callee that moves the cursor, when all its normal paths for a positive argument agree; else None"""
+    import sympy as sp
+    try:
+        an, paths = _mv_paths(fn, cfun, depth)
+    except _MvUnsup:
+        return None
+    p = sp.Symbol(cfront.params_of(fn)[0])
+    terms = set()
+    for kind, s in paths:
+        if kind == "throw":
+            if s["content"]:
+                return None
+            continue
+        if s["content"]:
+            return None
+        if _mv_feasible(sp, p, s["conds"], 1) is False:
+            continue
+        terms.add(sp.expand(s["disp"]))
+    if len(terms) != 1:
+        return None
+    t = terms.pop()
+    if any("@" in str(sy) for sy in t.free_symbols):
+        return None
+    return t
+
+
+def _r02_7k_binary_movers(chk, cfun):
+    import sympy as sp
+    roots = [r for r in ("read_binary_columns", "read_binary_slice") if ("Records::" + r) in cfun]
+    inbin = _mv_reach(cfun, roots, True)
+    intext = _mv_reach(cfun, [r for r in ("read_text_columns",) if ("Records::" + r) in cfun], False)
+    for nm in sorted(inbin - intext - set(roots)):
+        fn = cfun["Records::" + nm]
+        ps = [x for x in fn.get("inner", []) or [] if isinstance(x, dict) and x.get("kind") == "ParmVarDecl"]
+        if len(ps) != 1 or _mv_type(ps[0]) not in _MV_INT_TYPES or not (fn.get("type", {}) or {}).get("qualType", "").startswith("void"):
+            continue
+        if not _mv_stream_calls(fn):
+            continue
+        chk.analysed_unit("Records::" + nm)
+        key = "Records::%s::displacement-fixed-by-argument" % nm
+        pname = ps[0].get("name")
+        msg = "a binary skip helper leaves the file cursor exactly %s bytes (or %s whole rows) ahead on every path that returns, " \
+              "whatever bytes the skipped stretch holds" % (pname, pname)
+        try:
+            an, paths = _mv_paths(fn, cfun)
+        except _MvUnsup as e:
+            chk.ob("R02.7k", key, None, _cwhere(fn), msg + " [cursor not followed: %s]" % e)
+            continue
+        except AnalysisError:
+            raise
+        except Exception as e:          # a defect of the analysis must never become a verdict
+            chk.ob("R02.7k", key, None, _cwhere(fn), msg + " [analysis failed: %s: %s]" % (type(e).__name__, e))
+            continue
+        p = sp.Symbol(pname)
+        rowsize = sp.Symbol("mRowSize")
+        bad, unknown, good = [], [], 0
+        for kind, s in paths:
+            under = " and ".join(("" if tr else "not ") + t for _, tr, t in s["conds"]) or "always"
+            if kind == "throw":
+                if s["content"] and _mv_feasible(sp, p, s["conds"], 1) is not False:
+                    bad.append("an exception is raised on a test of the skipped bytes (%s; under %s)" % ("; ".join(s["content"]), under))
+                continue
+            t = sp.expand(s["disp"])
+            ks = [sy for sy in t.free_symbols if str(sy).startswith("K") and str(sy)[1:].isdigit()]
+            if sp.expand(t - p) == 0 or sp.expand(t - rowsize * p) == 0:
+                good += 1
+                continue
+            feas = _mv_feasible(sp, p, s["conds"], 2 if ks else 1)
+            if feas is False:
+                continue
+            if any("@" in str(sy) for sy in t.free_symbols) or feas is None or not (t.free_symbols <= set([p, rowsize] + ks)):
+                unknown.append("displacement %s under %s" % (t, under))
+                continue
+            if ks:
+                bad.append("%s: the cursor is then %s bytes ahead (0 <= %s < number of rounds) instead of %s (under %s)"
+                           % ("; ".join(s["content"]), t, ks[0], pname, under))
+            else:
+                bad.append("the cursor is %s bytes ahead instead of %s (under %s)" % (t, pname, under))
+        if bad:
+            chk.ob("R02.7k", key, False, _cwhere(fn), msg + " -- " + " | ".join(bad[:2]))
+        elif unknown or not good:
+            chk.ob("R02.7k", key, None, _cwhere(fn), msg + " [not decided: %s]" % ("; ".join(unknown[:2]) or "no path that returns normally"))
+        else:
+            chk.ob("R02.7k", key, True, _cwhere(fn), msg + " [%d path(s) followed symbolically]" % good)
 
 
 def _r02_7j_semantic(chk, cfun):
